@@ -322,6 +322,7 @@ HOST_NAMES_ODD = ["SECRET-DASH", "1NUM", "sp ace", "FÜ", "dot.name", "BASH_FUNC
 
 DUMP_MAIN = r"""env -0 > env.bin
 for a in "$@"; do printf '%s\0' "$a"; done > args.bin
+IFS=$' \t\n'
 for k in "${!BOB_ALL_PATHS[@]}"; do printf 'all\0%s\0%s\0' "$k" "${BOB_ALL_PATHS[$k]}"; done > arrays.bin
 for k in "${!BOB_DEP_PATHS[@]}"; do printf 'dep\0%s\0%s\0' "$k" "${BOB_DEP_PATHS[$k]}"; done >> arrays.bin
 for k in "${!BOB_TOOL_PATHS[@]}"; do printf 'tool\0%s\0%s\0' "$k" "${BOB_TOOL_PATHS[$k]}"; done >> arrays.bin
@@ -1632,7 +1633,10 @@ def run(ctx):
             part_e(ctx, tmp)
         ctx.note("phase seconds: %r" % _T)
     finally:
-        shutil.rmtree(tmp, ignore_errors=True)
+        if os.environ.get("C13_KEEP"):           # development aid: look at the generated scripts
+            print("kept", tmp)
+        else:
+            shutil.rmtree(tmp, ignore_errors=True)
 
 
 if __name__ == "__main__":
